@@ -1,2 +1,61 @@
-/- Properties/C05.lean — placeholder until the container proofs land -/
-import Model.Container
+/-
+  Properties/C05.lean — the container layout interoperates both ways. Lemmas: Proofs/Container.lean,
+  Proofs/Writer.lean.
+-/
+import Properties.C04
+
+open Binary Container ContainerProofs WriterProofs
+
+/-- **C05 (writer layout).** after any history of writes, failed writes, flushes and block copies,
+    the output is `header ++` a sequence of blocks, each laid out as the specification prescribes
+    (`count, byte length of the compressed payload, compressed payload, the file's sync marker`),
+    whose payloads decode to exactly their record counts and together hold the records submitted and
+    not still pending -/
+theorem c05_writer_layout (fuel : Nat) (env : Env) (o : WOpts) (s : Schema) (validate : Val → R Bool) (cfg : WCfg)
+    (hdr : Bytes) (ops : List Op)
+    (hops : ∀ op ∈ ops, OpOk (fileEnc fuel env o s) (fileDec fuel env s) (fileNf fuel env o s) op) :
+    let init : WState × Ghost := ({ out := hdr, pending := [], count := 0 }, { blocks := [], pend := [], submitted := [] })
+    let sg := runG (fileEnc fuel env o s) (fileDec fuel env s) validate cfg (fileNf fuel env o s) init ops
+    sg.1 = run (fileEnc fuel env o s) validate cfg init.1 ops ∧
+    sg.1.out = hdr ++ flat cfg.codec cfg.sync sg.2.blocks ∧
+    (∀ b ∈ sg.2.blocks, readRecords (fileDec fuel env s) b.count b.payload = (b.recs, none)) ∧
+    sg.2.blocks.flatMap (·.recs) ++ sg.2.pend = sg.2.submitted := by
+  intro init sg
+  have hinit : WInv (fileDec fuel env s) cfg hdr init.1 init.2 := ⟨by simp [init, flat], by simp [init], rfl, rfl⟩
+  obtain ⟨h1, h2, _, h4⟩ := inv_run (fileEnc fuel env o s) (fileDec fuel env s) validate cfg (fileNf fuel env o s)
+    (ExtendProofs.readData_ext env {} fuel s) hdr init ops hinit hops
+  exact ⟨runG_fst _ _ _ _ _ init ops, h1, h2, h4⟩
+
+/-- **C05 (reader accepts).** every layout-valid block area from any writer — any partition into
+    blocks, empty blocks included, any sound codec — is read to the records of its blocks -/
+theorem c05_reader_accepts (dec : Bytes → R (Val × Bytes)) (c : Codec) (hs : c.Sound) (sync : Bytes)
+    (hsync : sync.length = 16) (bs : List Blk) (hok : ∀ b ∈ bs, b.Ok dec c) (k : Nat) (hk : bs.length < k) :
+    readBlocks dec c sync k (flat c sync bs) = (bs.flatMap (·.recs), .eof) :=
+  read_flat dec c hs sync hsync bs hok k hk
+
+/-- **C05 (tiling).** the blocks reported by the block reader tile the block area: each starts where
+    the previous one ended, the first at the end of the header (`off`), the last ends at the end of
+    the file; record counts and payloads are those of the blocks -/
+theorem c05_tiling (c : Codec) (hs : c.Sound) (sync : Bytes) (hsync : sync.length = 16)
+    (dec : Bytes → R (Val × Bytes)) (bs : List Blk) (hok : ∀ b ∈ bs, b.Ok dec c) (k off : Nat) (hk : bs.length < k) :
+    ∃ infos, readBlockInfos c sync k off (flat c sync bs) = (infos, .eof) ∧
+      infos.map (·.numRecords) = bs.map (fun b => (b.count : Int)) ∧
+      infos.map (·.payload) = bs.map (·.payload) ∧
+      (infos.foldl (fun (acc : Option Nat) i => acc.bind fun o => if i.offset = o then some (o + i.size) else none)
+        (some off)) = some (off + (flat c sync bs).length) :=
+  infos_flat c hs sync hsync dec bs hok k off hk
+
+/-- **C05 (is_avro).** true exactly for inputs that begin with the four magic bytes -/
+theorem c05_is_avro (bs : Bytes) : isAvro bs = true ↔ ∃ r, bs = MAGIC ++ r := by
+  unfold isAvro
+  constructor
+  · intro h
+    have h' : bs.take 4 = MAGIC := by simpa using h
+    exact ⟨bs.drop 4, by rw [← h', List.take_append_drop]⟩
+  · rintro ⟨r, rfl⟩
+    simp [MAGIC]
+
+/-- non-vacuity: an empty block and a two-record block of longs under the null codec -/
+example : (readBlocks (fun bs => do let (n, r) ← decodeLong bs; pure (.int n, r)) Codec.null (List.replicate 16 7) 5
+    ([0x00, 0x00] ++ List.replicate 16 7 ++ [0x04, 0x04, 0x02, 0x03] ++ List.replicate 16 7)).2 = .eof := by
+  decide +kernel
